@@ -1,4 +1,27 @@
 ----------------------------- MODULE FindingsC08 -----------------------------
-EXTENDS Sequences
-Class(line, bad) == "none"
+(* Classes of the open findings of C08 (known_findings.json): as narrow as the cause allows -- minimal syntactic      *)
+(* trigger /\ the specific wrong observation.                                                                         *)
+EXTENDS ResponseCheck
+
+(* F-C08-1: a response header DEFINED under a name that is Content-Type in another letter case is validated against   *)
+(* its schema (validate_response.go skips only the exact key "Content-Type"), so a conforming response is rejected.    *)
+CtCaseClass(line, bad) ==
+   /\ bad = {"conforming_response_accepted"} /\ line.c.part = "hdr"
+   /\ \E i \in DOMAIN line.c.hdrs : IsCT(line.c.hdrs[i].name) /\ line.c.hdrs[i].name # "Content-Type"
+
+(* F-C08-2: header schema `oneOf` whose alternatives are of different types, text readable by several of them ("1" is  *)
+(* an integer and a string): decodeValue keeps the LAST alternative's decoding, not the one that validates, so a text  *)
+(* that satisfies exactly one alternative is rejected.                                                                *)
+ReadBy(alt, cs) == "type" \in DOMAIN alt /\ \E v \in PrimReadings(cs, "str") : TypeIs(alt.type, v)
+OneOfLastClass(line, bad) ==
+   /\ bad = {"conforming_response_accepted"} /\ line.c.part = "hdr"
+   /\ \E i \in DOMAIN line.c.hdrs :
+         LET h == line.c.hdrs[i] IN
+         /\ h.present /\ "oneOf" \in DOMAIN h.hs
+         /\ Cardinality({j \in DOMAIN h.hs.oneOf : ReadBy(h.hs.oneOf[j], h.cs)}) >= 2
+
+Class(line, bad) ==
+   IF CtCaseClass(line, bad) THEN "declared_content_type_header_case"
+   ELSE IF OneOfLastClass(line, bad) THEN "oneof_header_keeps_last_decoding"
+   ELSE "none"
 =============================================================================
